@@ -4,11 +4,15 @@
                                every p, and [desugar] puts the placeholder -- unchanged -- at exactly the SAns leaves
       C14_*_public             run s p = eval (desugar p sx): the evaluation of E with each @ read as the constant p
       C14_*_at                 the input "@" returns the placeholder itself (bits / variant / scale untouched)
-      C14_not_juxtaposed       @ is neither juxtaposition-capable nor a trigger (see C12) *)
+      C14_not_juxtaposed       @ is neither juxtaposition-capable nor a trigger (see C12)
+      C14_placeholder_never_juxtaposed
+                               for EVERY token sequence of every evaluator: an input in which @ is directly followed by an
+                               opening bracket, a function name or a literal, or directly follows a literal, a closing
+                               bracket, @, a constant, a postfix operator, a superscript or !, is rejected *)
 From Coq Require Import List NArith ZArith Bool.
 From SC Require Import Base.Res Base.F64 Base.Dec Base.Num Base.Oracle Lang.Syntax Lang.Lexer Lang.Literal Lang.Parser
   Eval.EvalI64 Eval.EvalF64 Eval.EvalNum Eval.EvalDec Eval.EvalCpx Eval.Run Gen.Tables
-  Spec.Surface Proofs.Grammar Proofs.Top.
+  Spec.Surface Proofs.Grammar Proofs.Top Proofs.Adjacent.
 Import ListNotations.
 Local Open Scope N_scope.
 
@@ -79,3 +83,21 @@ Theorem C14_not_juxtaposed :
                       parse pt_f64 ph [TK KAns; TK (KFunc FSin); TK KLeftParen; TNum a; TK KRightParen] = Err).
 Proof. split; [reflexivity|]. split; [vm_compute; reflexivity|]. intros. repeat split; vm_compute; reflexivity. Qed.
 Print Assumptions C14_not_juxtaposed.
+
+Theorem C14_placeholder_never_juxtaposed :
+  (forall (ph : f64) ts x y, adj x y ts ->
+     (x = TK KAns /\ trig pt_f64 y = true) \/ (ender pt_f64 x = true /\ y = TK KAns) -> parse pt_f64 ph ts = Err) /\
+  (forall (ph : Z) ts x y, adj x y ts ->
+     (x = TK KAns /\ trig pt_i64 y = true) \/ (ender pt_i64 x = true /\ y = TK KAns) -> parse pt_i64 ph ts = Err) /\
+  (forall (ph : dec) ts x y, adj x y ts ->
+     (x = TK KAns /\ trig pt_decimal y = true) \/ (ender pt_decimal x = true /\ y = TK KAns) -> parse pt_decimal ph ts = Err) /\
+  (forall (ph : f64 * f64) ts x y, adj x y ts ->
+     (x = TK KAns /\ trig pt_complex y = true) \/ (ender pt_complex x = true /\ y = TK KAns) -> parse pt_complex ph ts = Err) /\
+  (forall (ph : number) ts x y, adj x y ts ->
+     (x = TK KAns /\ trig pt_number y = true) \/ (ender pt_number x = true /\ y = TK KAns) -> parse pt_number ph ts = Err).
+Proof.
+  repeat split; intros ph ts x y A [[-> Tr]|[En ->]];
+    first [ eapply quiet_then_trigger_rejected; eauto; vm_compute; reflexivity
+          | eapply ender_then_atom_rejected; eauto; vm_compute; reflexivity ].
+Qed.
+Print Assumptions C14_placeholder_never_juxtaposed.
